@@ -15,21 +15,21 @@ use crate::SubmissionQueue;
 
 const OP_CLOSE: u8 = 19;
 
-static mut REG_CALLS: u32 = 0;
-static mut REG_OP: u32 = 0;
-static mut REG_OFFSET: u32 = 0;
-static mut REG_FD0: i32 = 0;
-static mut REG_NR: u32 = 0;
+static mut REG_CALLS: crate::verif_stubs::V<u32> = crate::verif_stubs::V::new(0);
+static mut REG_OP: crate::verif_stubs::V<u32> = crate::verif_stubs::V::new(0);
+static mut REG_OFFSET: crate::verif_stubs::V<u32> = crate::verif_stubs::V::new(0);
+static mut REG_FD0: crate::verif_stubs::V<i32> = crate::verif_stubs::V::new(0);
+static mut REG_NR: crate::verif_stubs::V<u32> = crate::verif_stubs::V::new(0);
 
 unsafe fn model_register(_fd: libc::c_int, op: libc::c_uint, arg: *const libc::c_void, nr: libc::c_uint) -> libc::c_int {
     unsafe {
-        REG_CALLS += 1;
-        REG_OP = op;
-        REG_NR = nr;
+        REG_CALLS.v += 1;
+        REG_OP.v = op;
+        REG_NR.v = nr;
         if op == libc::IORING_REGISTER_FILES_UPDATE {
             let u = &*arg.cast::<libc::io_uring_files_update>();
-            REG_OFFSET = u.offset;
-            REG_FD0 = *(u.fds as *const i32);
+            REG_OFFSET.v = u.offset;
+            REG_FD0.v = *(u.fds as *const i32);
         }
     }
     0
@@ -40,9 +40,9 @@ fn ring(free: u32) -> SubmissionQueue {
     t.io_uring_register = Some(model_register);
     k::install(t);
     unsafe {
-        REG_CALLS = 0;
-        k::CLOSES = 0;
-        k::LAST_CLOSED = -1;
+        REG_CALLS.v = 0;
+        k::CLOSES.v = 0;
+        k::LAST_CLOSED.v = -1;
     }
     k::sq_set(0, 2 - free);
     SubmissionQueue(crate::io_uring::sq::verif_c04::submissions_in_place(2, false, false))
@@ -77,7 +77,7 @@ fn c07_asyncfd_drop() {
     assert!(afd.fd() == fd && afd.kind() == kind, "descriptor word round-trips (sign bit marks direct)");
     let tail0 = k::sq_tail();
     drop(afd);
-    let (closes, last, regs) = unsafe { (k::CLOSES, k::LAST_CLOSED, REG_CALLS) };
+    let (closes, last, regs) = unsafe { (k::CLOSES.v, k::LAST_CLOSED.v, REG_CALLS.v) };
     if !full {
         assert!(k::sq_tail() == tail0 + 1, "exactly one close request through the ring");
         assert!(closes == 0 && regs == 0, "and no synchronous close as well");
@@ -96,8 +96,8 @@ fn c07_asyncfd_drop() {
         assert!(k::sq_tail() == tail0, "queue full: nothing submitted");
         if direct {
             assert!(closes == 0, "a direct descriptor is not a process descriptor");
-            assert!(regs == 1 && unsafe { REG_OP } == libc::IORING_REGISTER_FILES_UPDATE);
-            let (off, fd0, nr) = unsafe { (REG_OFFSET, REG_FD0, REG_NR) };
+            assert!(regs == 1 && unsafe { REG_OP.v } == libc::IORING_REGISTER_FILES_UPDATE);
+            let (off, fd0, nr) = unsafe { (REG_OFFSET.v, REG_FD0.v, REG_NR.v) };
             assert!(off == fd as u32 && fd0 == -1 && nr == 1, "unregisters exactly this descriptor's slot");
         } else {
             assert!(closes == 1 && last == fd && regs == 0, "close(2) exactly once on exactly this descriptor");
@@ -123,7 +123,7 @@ fn c07_close_and_stdio() {
     let kind = if direct { Kind::Direct } else { Kind::File };
     let afd = unsafe { AsyncFd::from_raw(fd, kind, sq.clone()) };
     let mut close = afd.close();
-    assert!(k::sq_tail() == 0 && unsafe { k::CLOSES } == 0 && unsafe { REG_CALLS } == 0, "close() itself closes nothing (no double close with Drop)");
+    assert!(k::sq_tail() == 0 && unsafe { k::CLOSES.v } == 0 && unsafe { REG_CALLS.v } == 0, "close() itself closes nothing (no double close with Drop)");
     let mut args = crate::io::verif_c10::close_args(&mut close);
     assert!(args.0 == fd && args.1 == kind);
     let mut sub = k::new_submission();
@@ -146,7 +146,7 @@ fn c07_close_and_stdio() {
         1 => drop(crate::io::stdout(sq.clone())),
         _ => drop(crate::io::stderr(sq.clone())),
     }
-    assert!(k::sq_tail() == 0 && unsafe { k::CLOSES } == 0, "standard streams are never closed");
+    assert!(k::sq_tail() == 0 && unsafe { k::CLOSES.v } == 0, "standard streams are never closed");
     kani::cover!(direct);
     kani::cover!(which == 2);
     std::mem::forget(sq);
@@ -212,7 +212,7 @@ fn c07_abandoned_fd_result() {
     c.0.user_data = ud;
     c.0.res = newfd;
     unsafe { crate::io_uring::cq::verif_c05::process(&c) };
-    let closed_sync = unsafe { k::CLOSES == 1 && k::LAST_CLOSED == newfd };
+    let closed_sync = unsafe { k::CLOSES.v == 1 && k::LAST_CLOSED.v == newfd };
     let closed_ring = k::sq_tail() == tail_after_drop + 1 && {
         let e = k::sqe_view(k::sqe(1));
         e.opcode == OP_CLOSE && e.fd == newfd
